@@ -55,6 +55,31 @@ CLAIMS = {
               "futures finished. Cross-file equality is NOT claimed: it fails on the pinned tree (F07a, recorded)."),
         technique="Lean 4 proof (list permutation lemmas over a parametric state-machine model) + differential runs through the real process pool",
         ref="DESIGN.md §3 C07"),
+    "C08": dict(
+        text=("Kernel-checked theorems about a long-lived Linter/Orchestrator as a state machine over an abstract file system, for all "
+              "rule plug-ins and all histories of lint calls, edits, deletions and creations: the cross-file stores are empty between "
+              "finalizing calls (invariant), so the next call returns exactly what a fresh object returns on the files as they are now "
+              "(next_call_as_fresh), repetition is stable, lint operations never write the file system, and the result multiset is "
+              "invariant under any permutation of the file list given order-insensitive finalize. The history model is executed on "
+              "fresh per-file/finalize tables observed from /repo and must reproduce the long-lived object's outputs step by step; "
+              "permutations, PYTHONHASHSEED values and project/TMPDIR snapshots are checked on the real tool. A genuine defect (stale "
+              "DRY evidence) was repaired (fix: fdb2cb6); the lint_file leak is a known finding (F08b)."),
+        note=("Interpreter hash seeds, SQLite temp files, mtimes and the real file system are observed through subprocess runs, not "
+              "modelled. finalize order-insensitivity is a hypothesis of order_independent (it is C03's theorem for DRY)."),
+        technique="Lean 4 proof (invariant by induction over operation histories) + history/permutation/hash-seed/side-effect differential runs",
+        ref="DESIGN.md §3 C08"),
+    "C10": dict(
+        text=("Kernel-checked theorems over the orchestrator model, for all rule plug-ins: a run's per-file part is the in-order union of "
+              "what each file reports alone and the rest is finalize on exactly the run's files; for per-file rules a directory / a file "
+              "list reports exactly the union; Linter.lint and the CLI coincide for single files and directories; several CLI targets "
+              "are one pass over the de-duplicated union; for every linter command and every rule id (regenerated tables) the CLI filter "
+              "and Linter.lint(rules=[linter]) pass the same ids. Model predictions (directory, subsets, mixed arguments) are compared "
+              "with the real tool on generated trees; CLI vs API compared field by field. Three genuine defects were repaired "
+              "(fix: 16a9498, 6a05b5c, 5e895cf)."),
+        note=("Rule plug-ins are parameters: absence of hidden per-file state in the real rules is sampled (directory run vs fresh "
+              "per-file runs). Suggestions are not compared (the CLI's JSON does not print them)."),
+        technique="Lean 4 proof (list lemmas over a parametric orchestrator model, decide over regenerated tables) + differential runs",
+        ref="DESIGN.md §3 C10"),
 }
 ALL = [f"C{n:02d}" for n in range(1, 21)]
 NOT_YET = "machinery for this property is not built yet in this revision of /verif (planned, see DESIGN.md §3); not claimed"
